@@ -115,3 +115,29 @@ Example C17_shared_nonvacuous :
   let ru := Some (SDispatch [(s "id", s "i2"); (s "name", s "n"); (s "project_id", s "p2")]) in
   run_shared [create; update] [c; u] = [rc; ru] /\ run_shared [create; update] [u; c] = [ru; rc].
 Proof. vm_compute. split; reflexivity. Qed.
+
+(* ---- registration histories: ServerOptions of one Register call never reach another (C17g) ---------- *)
+Theorem C17_registration_as_alone : forall regs i r q,
+  NoDup (map mkey (register_all 0 regs)) -> nth_error regs i = Some r ->
+  rq_key q = mkey (mount i r) ->
+  serve_reg (register_all 0 regs) q = serve_reg [mount i r] q.
+Proof. exact registration_as_alone. Qed.
+Print Assumptions C17_registration_as_alone.
+
+Theorem C17_registration_own_options_only : forall k svc opts,
+  ((forall o, In o opts -> is_hook o = false) -> mt_hook (mount k (svc, opts)) = None) /\
+  ((forall o, In o opts -> is_mux o = false) -> mt_mux (mount k (svc, opts)) = []).
+Proof. exact own_options_only. Qed.
+Print Assumptions C17_registration_own_options_only.
+
+(* Alpha with an error handler on mux m1, then Beta with no options, then Alpha again on m2 without a
+   handler: Beta is on the default mux and answers 500 unhooked; Alpha on m2 is unhooked; nothing of
+   Beta's is on m1 *)
+Example C17_registration_nonvacuous :
+  let regs := [(s "Alpha", [OMux (s "m1"); OHook (s "h0") 470%Z]); (s "Beta", []); (s "Alpha", [OMux (s "m2")])] in
+  let t := register_all 0 regs in
+  serve_reg t {| rq_mux := s "m1"; rq_svc := s "Alpha"; rq_fails := true |} = (470%Z, Some 0, s "h0") /\
+  serve_reg t {| rq_mux := []; rq_svc := s "Beta"; rq_fails := true |} = (500%Z, Some 1, []) /\
+  serve_reg t {| rq_mux := s "m1"; rq_svc := s "Beta"; rq_fails := false |} = (404%Z, None, []) /\
+  serve_reg t {| rq_mux := s "m2"; rq_svc := s "Alpha"; rq_fails := true |} = (500%Z, Some 2, []).
+Proof. vm_compute. repeat split; reflexivity. Qed.
